@@ -102,45 +102,88 @@ func fitReplay(in io.Reader, raw bool, args []string) (*Summary, error) {
 					w[i] = float64(fc.W[i])
 				}
 			}
-			cond := condA(fc.A)
-			tol := math.Max(1e-9, 16*eps*cond) * mag
-			terms := make([]func(xs, out []float64), p)
-			for j := 0; j < p; j++ {
-				j := j
-				terms[j] = func(_, out []float64) {
-					for i := range out {
-						out[i] = float64(fc.X[i][j])
+			// scalings under which the minimiser transforms exactly: weights w -> k w leave it unchanged,
+			// basis column j -> c_j * column j divides coefficient j by c_j (c_j = s^j: the design x -> s x for monomials)
+			for _, sc := range []struct{ s, k float64 }{{1, 1}, {1, 1e-9}, {0.01, 1}, {100, 1e6}, {0.5, 1e-6}} {
+				if sc.k != 1 && w == nil {
+					continue
+				}
+				cs := make([]float64, p)
+				for j := range cs {
+					cs[j] = math.Pow(sc.s, float64(j))
+				}
+				// condition number of the scaled normal matrix A'_jk = k c_j c_k A_jk
+				ad := make([]float64, 0, p*p)
+				for i := 0; i < p; i++ {
+					for j := 0; j < p; j++ {
+						ad = append(ad, bigF(fc.A[i][j])*cs[i]*cs[j]*sc.k)
 					}
 				}
+				cond := mat.Cond(mat.NewDense(p, p, ad), 1)
+				if math.IsNaN(cond) || math.IsInf(cond, 0) {
+					cond = 1e300
+				}
+				if cond > 1e11 {
+					continue // outside "well-conditioned designs"
+				}
+				want := make([]float64, p)
+				smag := 0.0
+				for j := range want {
+					want[j] = rf(exact[j]) / cs[j]
+					smag = math.Max(smag, math.Abs(want[j]))
+				}
+				var sw2 []float64
+				if w != nil {
+					sw2 = make([]float64, len(w))
+					for i := range w {
+						sw2[i] = w[i] * sc.k
+					}
+				}
+				terms := make([]func(xs, out []float64), p)
+				for j := 0; j < p; j++ {
+					j := j
+					terms[j] = func(_, out []float64) {
+						for i := range out {
+							out[i] = float64(fc.X[i][j]) * cs[j]
+						}
+					}
+				}
+				sx, sy, sw := append([]float64{}, xs...), append([]float64{}, ys...), append([]float64{}, sw2...)
+				sum.Checks++
+				got := fit.LinearLeastSquares(xs, ys, sw2, terms...)
+				if len(got) != p {
+					sum.viol("LLS", c, "%d parameters, want %d", len(got), p)
+					return
+				}
+				for j := range got {
+					// each coefficient relative to its own scale: |beta_j| c_j compared on the common (unscaled) footing
+					tolj := math.Max(1e-9, 16*eps*cond) * math.Max(mag, 1) / cs[j]
+					if r := math.Abs(got[j]-want[j]) / tolj; r > fitWorst["lls"] {
+						fitWorst["lls"] = r
+					}
+					if math.Abs(got[j]-want[j]) > tolj || math.IsNaN(got[j]) {
+						sum.viol("LLS", c, "column scale %g weight scale %g: beta[%d]=%.12g want %.12g (tol %.3g, cond %.3g)", sc.s, sc.k, j, got[j], want[j], tolj, cond)
+					}
+				}
+				// normal equations on the returned floats: |A' beta - b'|_j small relative to the terms
+				for j := 0; j < p; j++ {
+					s, scale := -bigF(fc.B[j])*cs[j]*sc.k, math.Abs(bigF(fc.B[j])*cs[j]*sc.k)
+					for k := 0; k < p; k++ {
+						akj := bigF(fc.A[j][k]) * cs[j] * cs[k] * sc.k
+						s += akj * got[k]
+						scale += math.Abs(akj) * math.Max(mag, 1) / cs[k]
+					}
+					if math.Abs(s) > math.Max(1e-9, 16*eps*cond)*scale {
+						sum.viol("LLS-normal-equations", c, "column scale %g weight scale %g row %d: residual %.3g against scale %.3g", sc.s, sc.k, j, s, scale)
+					}
+				}
+				if !bitsEqual(xs, sx) || !bitsEqual(ys, sy) || !bitsEqual(sw2, sw) {
+					sum.viol("argument-modified", c, "LinearLeastSquares changed its inputs")
+				}
 			}
+			cond := condA(fc.A)
+			tol := math.Max(1e-9, 16*eps*cond) * mag
 			sx, sy, sw := append([]float64{}, xs...), append([]float64{}, ys...), append([]float64{}, w...)
-			sum.Checks++
-			got := fit.LinearLeastSquares(xs, ys, w, terms...)
-			if len(got) != p {
-				sum.viol("LLS", c, "%d parameters, want %d", len(got), p)
-				return
-			}
-			for j := range got {
-				e := math.Abs(got[j] - rf(exact[j]))
-				if r := e / tol; r > fitWorst["lls"] {
-					fitWorst["lls"] = r
-				}
-				if !closeRat(got[j], exact[j], tol, 0) {
-					sum.viol("LLS", c, "beta[%d]=%.12g want %.12g (tol %.3g, cond %.3g)", j, got[j], rf(exact[j]), tol, cond)
-				}
-			}
-			// normal equations on the returned floats: |A beta - b|_j small relative to the terms
-			for j := 0; j < p; j++ {
-				s, scale := -bigF(fc.B[j]), math.Abs(bigF(fc.B[j]))
-				for k := 0; k < p; k++ {
-					t := bigF(fc.A[j][k]) * got[k]
-					s += t
-					scale += math.Abs(bigF(fc.A[j][k])) * mag
-				}
-				if math.Abs(s) > math.Max(1e-9, 16*eps*cond)*scale {
-					sum.viol("LLS-normal-equations", c, "row %d: residual %.3g against scale %.3g", j, s, scale)
-				}
-			}
 			if strings.HasPrefix(fc.Basis, "poly") {
 				deg := p - 1
 				pr := fit.PolynomialRegression(xs, ys, w, deg)
